@@ -273,7 +273,7 @@ func TestVerif_C13(t *testing.T) {
 					names = append(names, s)
 				}
 			}
-			kind := rapid.IntRange(0, 9).Draw(t, "action")
+			kind := rapid.IntRange(0, 10).Draw(t, "action")
 			switch {
 			case kind <= 5 && len(names) > 0: // complete a pending step
 				s := rapid.SampledFrom(names).Draw(t, "step")
@@ -336,6 +336,18 @@ func TestVerif_C13(t *testing.T) {
 						t.Fatalf("C13 VIOLATION key=c13-ignores-lease-created: order monitor did not stop after a lease was created for its group; schedule=%v", sched)
 					}
 				}
+			case kind == 10:
+				// market noise about ANOTHER provider's bid on the same order: it neither wins nor
+				// loses anything for this provider and must not make the monitor drop its own bid
+				other := mtypes.MakeBidID(oid, otherProv)
+				if rapid.Bool().Draw(t, "foreignBidClosed") {
+					note("event(bid-closed by another provider)")
+					_ = bus.Publish(mtypes.EventBidClosed{ID: other, Price: h.price})
+				} else {
+					note("event(bid-created by another provider)")
+					_ = bus.Publish(mtypes.EventBidCreated{ID: other, Price: h.price})
+				}
+				absorb(2 * time.Millisecond)
 			case kind == 8 && !parentDown:
 				parentDown = true
 				note("shutdown")
